@@ -39,7 +39,7 @@ def gen(tier, seed, shard, nshards):
         if k % nshards != shard:
             continue
         rng = util.rng_for("C02", seed, k)
-        p = int(rng.integers(1, 9))
+        p = int(rng.integers(1, 9)) if k % 3 else int(rng.integers(9, 15))
         out = gmat.random_dag_masks(rng, p)
         style = k % 4
         if style == 0:
